@@ -21,18 +21,20 @@ pub struct Case {
     pub vars: Vec<VarId>,
     pub body: Vec<Goal>,
     pub after: Vec<Goal>,
+    /// fresh variables of the clause (X and Y, plus chain variables in the scale family)
+    pub fresh: Vec<VarId>,
 }
 
 fn program(c: &Case) -> Program {
     let mut inner = c.prefix.clone();
     inner.push(Goal::Project(c.vars.clone(), c.body.clone()));
     inner.extend(c.after.iter().cloned());
-    Program { nq: 2, body: vec![Goal::Fresh(vec![X, Y], inner)] }
+    Program { nq: 2, body: vec![Goal::Fresh(c.fresh.clone(), inner)] }
 }
 
 /// number of states that reach the project goal according to the reference
 fn states_reaching(c: &Case) -> Option<usize> {
-    let p = Program { nq: 2, body: vec![Goal::Fresh(vec![X, Y], c.prefix.clone())] };
+    let p = Program { nq: 2, body: vec![Goal::Fresh(c.fresh.clone(), c.prefix.clone())] };
     interp::answers(&p, oracle::REF_FUEL).ok().map(|a| a.len())
 }
 
@@ -91,7 +93,7 @@ fn decode(s: &mut Source) -> Case {
         _ => vec![Goal::Closure(vec![nonrel(s)]), Goal::Eq(q1.clone(), q1.clone())],
     };
     let after = if s.flag(60) { vec![Goal::Diseq(q0.clone(), Term::Int(4))] } else { vec![] };
-    Case { prefix, vars, body, after }
+    Case { prefix, vars, body, after, fresh: vec![X, Y] }
 }
 
 pub fn eval(c: &Case, ctx: &Ctx) -> CaseInfo {
@@ -153,7 +155,7 @@ fn run_family(bytes: &[u8], ctx: &Ctx) -> CaseInfo {
 
 fn witness_case() -> Case {
     // |x| { member(x, [1, 2]), project |x| { q == x*x } }
-    Case { prefix: vec![Goal::Call(Rel::Member, vec![Term::Var(X), Term::ints(&[1, 2])])], vars: vec![X], body: vec![Goal::NonRel(NonRel::SqEq(Term::Var(X), Term::Var(0)))], after: vec![] }
+    Case { prefix: vec![Goal::Call(Rel::Member, vec![Term::Var(X), Term::ints(&[1, 2])])], vars: vec![X], body: vec![Goal::NonRel(NonRel::SqEq(Term::Var(X), Term::Var(0)))], after: vec![], fresh: vec![X, Y] }
 }
 
 fn witness() -> Option<String> {
@@ -169,8 +171,83 @@ fn fixed_once(ctx: &Ctx) -> CaseInfo {
         vars: vec![X],
         body: vec![Goal::Conde(vec![vec![Goal::NonRel(NonRel::SqEq(Term::Var(X), Term::Var(0)))], vec![Goal::NonRel(NonRel::AddConst(Term::Var(X), 1, Term::Var(0)))]])],
         after: vec![],
+        fresh: vec![X, Y],
     };
     eval(&c, ctx)
+}
+
+/// Scale: the projected variable reaches its value through a chain of up to 400 (thorough 2000)
+/// aliases posted head-first, tail-first or shuffled, or is bound to a term with a spine of that
+/// many levels containing variables that are bound only afterwards. One state reaches the goal.
+fn run_scale(bytes: &[u8], ctx: &Ctx) -> CaseInfo {
+    use crate::gen::scale::{self, big_term, SPINES};
+    let mut s = Source::new(bytes);
+    let thorough = ctx.tier == Tier::Thorough;
+    let x = Term::Var(X);
+    let y = Term::Var(Y);
+    let q0 = Term::Var(0);
+    let n = scale::size(&mut s, scale::cap(thorough));
+    let template = s.weighted(&[3, 4]);
+    let order_kind = s.weighted(&[3, 3, 2]);
+    let val = s.range(0, 5);
+    let body_kind = s.below(6);
+    let late_first = s.flag(128);
+    let shape = if s.flag(128) { SPINES[0] } else { SPINES[s.below(SPINES.len())] };
+    let npos = 1 + s.below(3);
+    let positions: Vec<usize> = (0..npos).map(|i| if i == 0 && s.flag(128) { n - 1 } else { s.below(n) }).collect();
+    let mut fresh = vec![X, Y];
+    let mut prefix: Vec<Goal> = vec![];
+    let value_is_int;
+    if template == 0 {
+        // x == b1, b1 == b2, ..., b(n) == value
+        let b = |i: usize| if i == 0 { Term::Var(X) } else { Term::Var((10 + i) as VarId) };
+        fresh.extend((1..=n).map(|i| (10 + i) as VarId));
+        let mut links: Vec<Goal> = (0..n).map(|i| if (i + val as usize) % 5 == 0 { Goal::Eq(b(i + 1), b(i)) } else { Goal::Eq(b(i), b(i + 1)) }).collect();
+        let last = if val % 2 == 0 { Goal::Eq(b(n), Term::Int(val)) } else { Goal::Eq(b(n), Term::list(vec![Term::Int(val), y.clone()])) };
+        value_is_int = val % 2 == 0;
+        links.push(last);
+        match order_kind {
+            0 => {}
+            1 => links.reverse(),
+            _ => {
+                let perm = s.permutation(links.len());
+                links = perm.into_iter().map(|i| links[i].clone()).collect();
+            }
+        }
+        prefix.extend(links);
+        prefix.push(Goal::Eq(y.clone(), Term::Int(1)));
+    } else {
+        // x == <spine with y at some positions>, y bound before or after
+        let el: Vec<Term> = (0..n).map(|i| if positions.contains(&i) { y.clone() } else { Term::Int((i % 3) as i64) }).collect();
+        let end = if s.flag(100) { y.clone() } else { Term::Int(4) };
+        let big = big_term(shape, n, &mut |i| el[i].clone(), end);
+        let bind = Goal::Eq(y.clone(), Term::Int(val));
+        if late_first {
+            prefix.push(bind);
+            prefix.push(Goal::Eq(x.clone(), big));
+        } else {
+            prefix.push(Goal::Eq(x.clone(), big));
+            prefix.push(bind);
+        }
+        value_is_int = false;
+    }
+    let body = match body_kind {
+        0 | 1 => vec![Goal::NonRel(NonRel::IsGroundTerm(x.clone()))],
+        2 if value_is_int => vec![Goal::NonRel(NonRel::SqEq(x.clone(), q0.clone()))],
+        3 if value_is_int => vec![Goal::NonRel(NonRel::AddConst(x.clone(), 2, q0.clone()))],
+        4 => vec![Goal::NonRel(NonRel::IsGroundTerm(x.clone())), Goal::Eq(Term::Var(1), x.clone())],
+        _ => vec![Goal::Closure(vec![Goal::NonRel(NonRel::IsGroundTerm(x.clone()))]), Goal::Eq(q0.clone(), Term::Int(1))],
+    };
+    let c = Case { prefix, vars: vec![X], body, after: vec![], fresh };
+    if std::env::var("PVH_SHOW").is_ok() {
+        eprintln!("SHOW {}", program(&c).show().chars().take(300).collect::<String>());
+    }
+    let mut info = eval(&c, ctx);
+    truncate_sample(&mut info, 400);
+    info.nontrivial = true;
+    info.class(if template == 0 { "scale:alias-chain" } else { "scale:long-term-with-late-bound-variables" });
+    info.class(if n >= 256 { "size>=256" } else if n >= 64 { "size>=64" } else if n >= 16 { "size>=16" } else { "size<16" });
+    info
 }
 
 pub fn run_family_pub(bytes: &[u8], ctx: &Ctx) -> CaseInfo {
@@ -184,9 +261,12 @@ pub fn witness_pub() -> Option<String> {
 pub fn def() -> PropertyDef {
     PropertyDef {
         id: "C11",
-        rule: "a prefix that makes 0-4 states reach `project |x| { body }` (x == k, member(x, [...]), conde, append-derived, partially ground list) optionally binding a second projected variable, bodies using the projected value non-relationally through fngoals (x*x, x+k, is-ground-integer), alone, in conjunction, inside conde or closure (resumed later), optionally followed by a disequality. Oracle: reference interpreter (project = evaluate the body on the walked value in that state), equal multisets, no panic. Non-trivial = the project goal is reached by >=2 states or the body is resumed later; distinct = hash of the printed program. Failures with >=2 reaching states are the listed finding C11-project-reached-twice; everything with one reaching state is checked without suppression",
+        rule: "a prefix that makes 0-4 states reach `project |x| { body }` (x == k, member(x, [...]), conde, append-derived, partially ground list) optionally binding a second projected variable, bodies using the projected value non-relationally through fngoals (x*x, x+k, is-ground-integer), alone, in conjunction, inside conde or closure (resumed later), optionally followed by a disequality. Oracle: reference interpreter (project = evaluate the body on the walked value in that state), equal multisets, no panic. Non-trivial = the project goal is reached by >=2 states or the body is resumed later; distinct = hash of the printed program. Failures with >=2 reaching states are the listed finding C11-project-reached-twice; everything with one reaching state is checked without suppression. Family `scale` (one reaching state): the projected variable reaches its value through a chain of up to 400 (thorough 2000) aliases posted head-first / tail-first / shuffled, or is bound to a term with a spine of that many levels (six shapes) containing variables bound before or after; bodies test groundness of the projected value or compute with it",
         assumptions: vec!["reference interpreter correct"],
-        families: vec![Family { name: "project", max_len: 64, quick: 100_000, thorough: 2_000_000, run: run_family }],
+        families: vec![
+            Family { name: "project", max_len: 64, quick: 100_000, thorough: 2_000_000, run: run_family },
+            Family { name: "scale", max_len: 48, quick: 20_000, thorough: 300_000, run: run_scale },
+        ],
         fixed: vec![Fixed { name: "reached-once-resumed-body", run: fixed_once }],
         witnesses: vec![Witness { finding: FINDING, run: witness }],
         exhaustive: None,
